@@ -57,4 +57,44 @@ theorem memo_fresh (bs : List Bin) (h : MtimeDeterminesContent bs) : digestsUsed
 /-- negative result outside the hypothesis: restoring an old mtime with new contents defeats the memo -/
 theorem memo_stale_witness : digestsUsed none [⟨1, 10⟩, ⟨2, 10⟩] = [1, 1] := by decide
 
+/-! ### which entry of the compiler map a request uses (`compiler_info`)
+
+The map is keyed by a path: the canonical (symlink-free) path of the requested executable **if** that has the same file name, the
+requested path otherwise ("don't canonicalize if the file name differs so it works with clang's multicall"). A driver decides by
+its *name* what it is (`gcc` / `g++`, `clang` / `clang++`), so two names must never share an entry. -/
+
+/-- the facts about one requested path that the rule looks at; paths are identified by numbers, `nameOf` gives the file name of a path -/
+structure Req where
+  self : Nat            -- the requested path
+  canon : Nat           -- its canonical path (`canonicalize()`)
+deriving Repr, DecidableEq
+
+/-- the key of the compiler map for a request -/
+def memoKey (nameOf : Nat → Nat) (r : Req) : Nat :=
+  if nameOf r.canon = nameOf r.self then r.canon else r.self
+
+/-- the file name of the key is the file name the request was made under — whatever links there are -/
+theorem memoKey_name (nameOf : Nat → Nat) (r : Req) : nameOf (memoKey nameOf r) = nameOf r.self := by
+  unfold memoKey; split
+  · assumption
+  · rfl
+
+/-- C12 / C01 `names_never_share_an_entry`: two requests that use the same entry of the compiler map were made under the same
+    file name — `gcc` and `g++`, `clang` and `clang++` (links to one binary) never inherit each other's detected compiler -/
+theorem names_never_share_an_entry (nameOf : Nat → Nat) (r₁ r₂ : Req) (h : memoKey nameOf r₁ = memoKey nameOf r₂) :
+    nameOf r₁.self = nameOf r₂.self := by
+  rw [← memoKey_name nameOf r₁, ← memoKey_name nameOf r₂, h]
+
+/-- … while two spellings of one file name that resolve to one file do share their entry (that is what the canonicalisation is for) -/
+theorem same_name_links_share (nameOf : Nat → Nat) (r₁ r₂ : Req) (hc : r₁.canon = r₂.canon)
+    (h1 : nameOf r₁.canon = nameOf r₁.self) (h2 : nameOf r₂.canon = nameOf r₂.self) :
+    memoKey nameOf r₁ = memoKey nameOf r₂ := by
+  unfold memoKey; rw [if_pos h1, if_pos h2, hc]
+
+/-- the rule S-C01-3 replaced it with (always canonicalize): `gcc` and `g++` as links to one binary collapse (kernel-checked) -/
+theorem always_canonicalize_collapses_witness :
+    let nameOf : Nat → Nat := fun p => if p = 1 then 10 else if p = 2 then 20 else 30      -- path 1 = gcc, path 2 = g++, path 3 = the binary
+    -- under "always canonicalize" both requests would use the entry of path 3; the real rule keeps them at paths 1 and 2
+    (⟨1, 3⟩ : Req).canon = (⟨2, 3⟩ : Req).canon ∧ memoKey nameOf ⟨1, 3⟩ = 1 ∧ memoKey nameOf ⟨2, 3⟩ = 2 := by decide
+
 end MemoM
